@@ -316,25 +316,26 @@ Definition wire0_is (w : str) (a : acc) : bool := opt_eqb str_eqb (a_wire0 a) (S
 Definition lookup0 (md : modl) (w : str) : option acc := find (wire0_is w) (rev (m_accs md)).
 Definition find_attr (md : modl) (attr : str) : option acc := find (fun a => str_eqb attr (a_attr a)) (m_accs md).
 
-Definition set_par_acc (attr : str) (p' : par) (a : acc) : acc :=
-  if str_eqb attr (a_attr a) then
-    match a_body a with
-    | AP _ => {| a_attr := a_attr a; a_wire0 := a_wire0 a; a_wire := a_wire a; a_group := a_group a; a_vis := a_vis a;
-                 a_body := AP p' |}
-    | AC _ => a
-    end
-  else a.
-Definition set_par_mod (m attr : str) (p' : par) (md : modl) : modl :=
-  if str_eqb m (m_name md) then
-    {| m_name := m_name md; m_export := m_export md; m_group := m_group md; m_vis := m_vis md; m_impl := m_impl md;
-       m_ifaces := m_ifaces md; m_features := m_features md; m_accs := map (set_par_acc attr p') (m_accs md) |}
-  else md.
-Definition set_par (s : state) (m attr : str) (p' : par) : state :=
-  {| s_mods := map (set_par_mod m attr p') (s_mods s); s_active := s_active s; s_subs := s_subs s |}.
-
 (* only value and error flag of a parameter object ever change *)
 Definition with_value (p : par) (v : pyval) (e : bool) : par :=
   {| p_dt := p_dt p; p_unit := p_unit p; p_readonly := p_readonly p; p_constant := p_constant p; p_value := v; p_err := e |}.
+
+Definition set_val_acc (attr : str) (v : pyval) (e : bool) (a : acc) : acc :=
+  if str_eqb attr (a_attr a) then
+    match a_body a with
+    | AP p => {| a_attr := a_attr a; a_wire0 := a_wire0 a; a_wire := a_wire a; a_group := a_group a; a_vis := a_vis a;
+                 a_body := AP (with_value p v e) |}
+    | AC _ => a
+    end
+  else a.
+Definition set_val_mod (m attr : str) (v : pyval) (e : bool) (md : modl) : modl :=
+  if str_eqb m (m_name md) then
+    {| m_name := m_name md; m_export := m_export md; m_group := m_group md; m_vis := m_vis md; m_impl := m_impl md;
+       m_ifaces := m_ifaces md; m_features := m_features md; m_accs := map (set_val_acc attr v e) (m_accs md) |}
+  else md.
+(* pobj.value = value; pobj.readerror = err  of the parameter object <m>.<attr> *)
+Definition set_val (s : state) (m attr : str) (v : pyval) (e : bool) : state :=
+  {| s_mods := map (set_val_mod m attr v e) (s_mods s); s_active := s_active s; s_subs := s_subs s |}.
 
 Definition spec_eqb (a b : str * option str) : bool := pair_eqb str_eqb (opt_eqb str_eqb) a b.
 Definition subscribed (s : state) (sp : str * option str) : bool := existsb (spec_eqb sp) (s_subs s).
@@ -396,7 +397,7 @@ Definition do_change (E : pyenv) (s : state) (m w : str) (j : pyval) : state * r
                     | Err e => (s, RpErr (RExc e), [])
                     | Ok nv =>
                         let p' := with_value p nv false in
-                        (set_par s m (a_attr a) p', reply_of (dt_export (p_dt p) nv >>= fun v => Ok (with_qualifiers v)),
+                        (set_val s m (a_attr a) nv false, reply_of (dt_export (p_dt p) nv >>= fun v => Ok (with_qualifiers v)),
                          announce s m a p')
                     end
               end
@@ -483,7 +484,7 @@ Definition do_driver_set (s : state) (m attr : str) (v : pyval) : state * reply 
                         | Ok nv => with_value p nv false
                         | Err _ => with_value p (p_value p) true
                         end in
-              (set_par s m attr p', RpNone, announce s m a p')
+              (set_val s m attr (p_value p') (p_err p'), RpNone, announce s m a p')
           end
       end
   end.
